@@ -78,7 +78,12 @@ func runR35(c *Ctx) {
 			} else {
 				cellOK = a0 == ssa.Value(fn.Params[1])
 			}
-			patOK := fieldNameOfLoad(a1) == "matchString"
+			patOK := false
+			if fld, x := fieldOf(a1); fld != nil && rootValue(x) == ssa.Value(fn.Params[0]) {
+				if b, ok := fld.Type().Underlying().(*types.Basic); ok && b.Kind() == types.String {
+					patOK = true
+				}
+			}
 			switch {
 			case !cellOK && ci:
 				c.bad(key, p.instrPos(rets[0]), "the cell is not upper-cased (ToUpper) before the comparison")
@@ -135,13 +140,20 @@ func runR35(c *Ctx) {
 			return false, false
 		}
 		pe.oracle = func(pe *pathExec, cond ssa.Value) (bool, bool) { return pe.evalBool(cond, atom) }
+		pe.inline = func(callee *ssa.Function) bool {
+			// constructor helpers (e.g. an extracted regexp branch): same package, return a Matcher
+			if callee.Pkg != fn.Pkg || callee.Signature.Results().Len() == 0 {
+				return false
+			}
+			return isNamed(callee.Signature.Results().At(0).Type(), rel(sp), "Matcher")
+		}
 		end, why := pe.run()
 		ret, ok := end.(*ssa.Return)
 		if !ok {
 			c.undecided(key, p.pos(fn.Pos()), "cannot evaluate: "+why)
 			continue
 		}
-		rv := ret.Results[0]
+		rv := pe.resolve(ret.Results[0])
 		if mi, ok := rv.(*ssa.MakeInterface); ok {
 			rv = mi.X
 		}
@@ -177,7 +189,7 @@ func runR35(c *Ctx) {
 			}
 		} else if st != nil {
 			for i := 0; i < st.NumFields(); i++ {
-				if st.Field(i).Name() == "matchString" {
+				if b, ok := st.Field(i).Type().Underlying().(*types.Basic); ok && b.Kind() == types.String {
 					src = pe.mem[fmt.Sprintf("%s.%d", ck, i)]
 				}
 			}
